@@ -10,6 +10,7 @@ import Bp7.Model.Json
 import Bp7.Model.TsGen
 import Bp7.Model.Ffi
 import Bp7.Spec.Rfc9171
+import Bp7.Driver.SecOps
 namespace Bp7.Driver
 open Bp7
 
@@ -295,6 +296,7 @@ def answer (line : String) : String :=
           | none => out ++ " || bad-op"
       "ok " ++ run b (splitOps ops) (stateLine b)
     | none => "bad-op"
+  | op :: rest => if op.startsWith "sec." then Sec.answer op rest else "bad-op"
   | _ => "bad-op"
 
 end Bp7.Driver
